@@ -338,8 +338,11 @@ class LineSource:
     """file-like object for Parser.parse_all whose readline() lets the user actor run commands
     *between* two reads, the way GDB mode interleaves commands with message arrival."""
 
-    def __init__(self, steps, rec, run_cmd, on_line=None, run_close=None):
+    def __init__(self, steps, rec, run_cmd, on_line=None, run_close=None, nonewline=False):
         self.run_close = run_close
+        # the stream may end without a final newline (a producer that was killed, `printf` without \n): the last line is then
+        # returned as it is, the way a file object does
+        self.last_line_index = max([i for i, s_ in enumerate(steps) if s_[0] == 'line'] or [-1]) if nonewline else -1
         self.steps = steps          # list of ('line', text) | ('cmd', text) | ('close', connection tag)
         self.i = 0
         self.rec = rec
@@ -362,6 +365,8 @@ class LineSource:
             k = self.rec.add('line', payload)
             if self.on_line is not None:
                 self.on_line(k, payload)
+            if self.i - 1 == self.last_line_index and payload.strip():
+                return payload
             return payload + '\n'
         return ''
 
@@ -371,7 +376,7 @@ class ComponentResult:
 
 
 def run_component(steps, filter_text=None, break_text=None, show_unprocessed=True, color=False, rec=None,
-                  listener_factory=None, post_cmds=()):
+                  listener_factory=None, post_cmds=(), nonewline=False):
     """Parser + ConnectionManager + Controller wired as main.main wires them; commands interleaved."""
     t = tool()
     reset_globals()
@@ -395,7 +400,7 @@ def run_component(steps, filter_text=None, break_text=None, show_unprocessed=Tru
             cm.add_connection_list_listener(listener_factory(cm), True)
         parser = t['parse'].Parser(out, cm)
         src = LineSource(steps, rec, ctl.process_command,
-                         run_close=lambda tag: cm.close_connection(parser.last_time, tag))
+                         run_close=lambda tag: cm.close_connection(parser.last_time, tag), nonewline=nonewline)
         res.parser = parser
         parser.parse_all(src)
         rec.add('eof')
